@@ -45,7 +45,12 @@ RULE = ('random template trees (depth <= 4) over table/point/constant/function(p
         'expression of a name bound by an inner loop, loop ranges that mention the loop index\'s own name (Python oracle); '
         'coverage-driven: time dependent scalars over point / multi-channel / pulse-arithmetic / mapped atoms, MappingPT / '
         'ArithmeticPT inside atomic parents, python numbers as ConstantPT arguments, declared multi-channel duration, pad_to '
-        'with a callable / pt_kwargs / the current duration.  Observation: '
+        'with a callable / pt_kwargs / the current duration; round 5 (deterministic): inputs inside the input class of each '
+        'known finding next to a healthy channel / non-empty neighbours (a negative ConstantPT duration or symbolic repetition '
+        'count first / in the middle / last / mapped / as one loop iteration; channels overwritten by a ParallelChannelPT below '
+        'scalar arithmetic next to untouched ones, renamed, in loops; tables of the former finding table-constant-detection; '
+        'empty first / last parts), so that classify - which explains a failure CLAUSE BY CLAUSE and channel by channel - '
+        'is exercised where a finding applies.  Observation: '
         'integral/initial_values/final_values/duration evaluated exactly (sympy rationals), the real program of '
         'create_program integrated leaf by leaf with an open 3-point rule on a 1/16 grid (exact for piecewise cubics with '
         'breakpoints on the grid; cross-checked on a 1/8 grid), its first and last samples, and the program of '
@@ -66,10 +71,18 @@ TRUSTED = [
     'a property returns); pad_to call styles (callable / pt_kwargs / current duration) are compared with the plain call in Python',
     'the aliasing / history stream compares the real code with itself (shared and queried repeatedly vs freshly built and '
     'queried once) in Python; the post-history observations additionally go through check_corr / check_spec',
+    'classify (c07_gen.py): the Python mirrors of the two proven guards (cross-checked against Coq per strict case) and the '
+    'not cross-checked helpers raw_duration / tainted_channels that decide which failing clause a known finding may explain',
 ]
 ASSUMPTIONS = [
-    'the theorems are about templates satisfying Wf.wf (what the constructors of the real classes enforce); check_corr '
-    'verifies wf on every generated strict case',
+    'the theorems are about templates satisfying Wf.wf (what the constructors of the real classes enforce, plus: the loop '
+    'index does not occur in its own range, which the code allows); check_corr verifies wf on every generated strict case',
+    'the instantiated pulse of the theorems is Spec.denote; that the real program equals it (duration, exact integral, '
+    'samples at 0 and 1/32 before the end, padded region) is checked per generated case, not proved; denote = Some excludes '
+    'negative durations / counts (finding), FunctionPT of duration <= 0, atomic parents over empty or unequal operands, '
+    'more than 4096 iterations',
+    'the history theorems are about the model\'s dictionary-object discipline and assume templates hold no mutable state; '
+    'the AST analysis rejects a write to / return of a stored attribute, the history stream tests it',
     'definedness (the symbolic value evaluates to a number) is proved under Def.guard_C07_defined: the parts the program '
     'never instantiates (values of an empty ConstantPT, body of a zero-fold repetition / of a loop over an empty range) '
     'would be instantiable too and no scalar divisor is 0; without that guard it is a hypothesis of the theorems',
@@ -909,10 +922,11 @@ def shrink(case, obs, ctx):
 
 
 MANIFEST = {
-    'level_text': 'Full proof + exact correspondence. Proved in Coq (unbounded, axiom free, one induction over all 13 '
+    'level_text': 'Full proof about model vs independent denotation + exact correspondence with the real code. Proved in Coq '
+                  '(unbounded, axiom free, one induction over all 13 '
                   'template classes each): C07_duration, C07_integral (no guard), C07_initial_guarded / C07_final_guarded '
                   '(one executable guard per remaining end-point finding, each with refutation witness and non-vacuity '
-                  'example), pad_to holds final_values; round 3: C07_definedness (under Def.guard_C07_defined every symbolic '
+                  'example), pad_to holds the end voltage under the final guard (non-vacuity: C07_pad_nonvacuous); round 3: C07_definedness (under Def.guard_C07_defined every symbolic '
                   'quantity of an instantiable template EVALUATES; refutation witness per guard clause) and with it the '
                   'total statements C07_{duration,integral,initial,final}_total; C07_history_independent / C07_query_pure '
                   '(Hist.v models which dictionary OBJECT each class returns, hands through or rewrites in place: every '
@@ -933,8 +947,13 @@ MANIFEST = {
                   '(modelled semantically, validated per case), harness integrator and generators, the Python oracle for '
                   'time dependent scalars multiplied with table / composite atoms or dividing a template, and for loop ranges '
                   'naming their own index (not modelled in Coq), the dictionary values of Hist.v, the AST discipline analysis. '
-                  'Five known deviations of the unchanged code are listed as known findings (initial-head-empty-or-jump, '
-                  'final-tail-empty, table-constant-detection, arith-over-parallel-order, negative-duration-empty); six defects '
+                  'Tested only (no proof): time dependent scalars times tables / dividing a template, loop ranges naming their '
+                  'index, pad_to call styles, the dictionary values behind history independence, real program = denotation. Not '
+                  'covered: transcendental FunctionPT, TimeReversalPT (integral only), non-dyadic floats. '
+                  'Four known deviations of the unchanged code are listed as known findings (initial-head-empty-or-jump, '
+                  'final-tail-empty, arith-over-parallel-order, negative-duration-empty), explained clause by clause and channel '
+                  'by channel (round 5: the stale entry table-constant-detection, repaired by 01efa2c, was removed together with '
+                  'its predicate); six defects '
                   'were repaired in /repo in rounds 1-4 (round 4: the Sum-index capture by MappingPT substitutions and by loop '
                   'ranges naming their own index, 7d773a1).',
     'technique': 'Coq proof over a hand-written model + exact correspondence check against the real instantiated pulse',
